@@ -22,6 +22,12 @@ How the sentence is split:
   panic-callback invocation (as soon as the schedule lets it reach the call).
 * `isolation_table` - both together: `isolation` instantiated with the frames read off the
   generated table; no hypothesis about frames is left.
+* `handler_total` - about the **current source** of `panics.MakeHandler` (statement list regenerated
+  into `GS.Generated.PanicHandler.steps`, interpreted by `GS.Panics.runHandler`; the model's
+  recovered-panic step `GS.Panics.handled` is defined through it): for EVERY non-nil panic value - of
+  any type: string, error, runtime error, struct … - the handler calls the callback (when one is set)
+  exactly once with that very value and returns a RecoveredPanicErr carrying that very value; for
+  recover() = nil it returns nil and calls nothing.
 * `unrecovered_counterexample` - the hypothesis of `isolation` is needed: in the model one site
   without a frame takes every request down.  (This was the state of go-graphsync before the fix
   recorded in known_findings.json: storage read/write functions ran on the task-worker goroutines
@@ -58,6 +64,19 @@ theorem sites_nonvacuous :
     (∀ k ∈ listedKinds, hasSite table .requestor k = true) ∧
     (∀ k ∈ [Kind.codec, .reifier, .chooser, .selector, .storageRead, .storageReadStream],
         hasSite table .responder k = true) := by decide
+
+/-- **The panic handler treats every panic value alike** - "is turned into an error for that request
+and passed to the configured panic callback", whatever was passed to `panic`.  Stated about the
+statement list generated from `panics.MakeHandler`; `α` is the type of panic values, universally
+quantified (the handler cannot look into the value), `cbSet` says whether a callback is configured.
+Second part: no panic (recover() returned nil) is not turned into an error.  Third part: this is what
+the request model uses for a recovered panic (`GS.Panics.handled`). -/
+theorem handler_total :
+    (∀ (α : Type) (cbSet : Bool) (v : α),
+        runHandler cbSet (some v) = { ret := .recovered (some v), cbs := if cbSet then [some v] else [] }) ∧
+    (∀ (α : Type) (cbSet : Bool), runHandler cbSet (none : Option α) = { ret := .nil, cbs := [] }) ∧
+    (∀ sd k, handled sd k = (.panicErr sd k, .cb sd k)) :=
+  ⟨fun _ cbSet v => runHandler_total cbSet v, fun _ cbSet => runHandler_nil cbSet, handled_eq⟩
 
 /-- frames read off a table in which all listed sites are recovered cover all listed kinds -/
 theorem framesOf_listed (t : List Site) (h : ∀ s ∈ t, s.kind ∈ listedKinds → s.recovered = true)
